@@ -68,6 +68,11 @@ def cases(tier, seed):
                     if tol == 1e-6 and cls not in ("generic", "hermitian"):
                         continue
                     out.append({"key": f"{vname(fn, kw)}/{cls}/n={n}/tol={tol:g}", "vi": vi, "cls": cls, "n": n, "tol": tol, "tier": tier})
+        # reducible inputs with INTERIOR splits: block upper triangular (dense coupling blocks, exactly zero lower-left blocks), block sizes
+        # chosen so that a reflector, a skipped column and another reflector follow each other
+        for blocks in ((2, 3), (3, 3), (2, 2, 2), (3, 1, 2), (1, 2, 2), (2, 2, 1)):
+            cls = "bt:" + "-".join(map(str, blocks))
+            out.append({"key": f"{vname(fn, kw)}/{cls}/n={sum(blocks)}/tol=1e-10", "vi": vi, "cls": cls, "n": sum(blocks), "tol": 1e-10, "tier": tier})
     return out
 
 
@@ -112,6 +117,11 @@ def make(cls, n, fill):
     elif cls.startswith("xf:") or cls.startswith("xfh:"):
         A, lay = xf_build(cls.split(":", 1)[1], n, n, fill, hermitian=cls.startswith("xfh:"))
         return A, None, lay
+    elif cls.startswith("bt:"):
+        off = 0
+        for bsz in map(int, cls[3:].split("-")):
+            A[off + bsz :, off : off + bsz] = 0.0
+            off += bsz
     elif cls.startswith("sp:"):
         A = G.special(cls[3:], n, fill)
     elif cls.startswith("mask:"):
